@@ -10,6 +10,8 @@ compile and to be well scoped.  The pools of adversarial names are derived on ev
 the code the library generates for the battery, so a new internal name becomes an adversarial field / class name.
 Correspondence: Lean `pyRepr`/`pyUnquote` vs Python `repr` / `ast.literal_eval`; `fieldVar` / `typeLocal` vs the names
 found in the captured code.
+Feature models (harness/feat15.py, `feat_case`): the same oracle on shapes outside the type grammar (user-defined scalar
+types in Unions / under Patterns, several aliases, text-keyed TypedDicts, tag keys with catch-alls, string operands).
 """
 from __future__ import annotations
 
@@ -22,14 +24,17 @@ import enum
 import json
 import keyword
 import os
+import random
 import re
 
 from harness import common as C
-from harness import gen, gencap, model, battery15
+from harness import gen, gencap, model, battery15, feat15
 from harness.props.c02 import strip_shapes
 
 ADV_TEXT = ["it's", 'a"b', "q'\"x", 'back\\slash', 'C:\\new\\tag', 'tr\\', '{o}', '{0}', '%s', 'new\nline', 'tab\there', 'ключ', 'a b',
-            "'", '"', '\\', "x'''y", '"""', '\r', 'é', '#c', 'x;y', '$v', "')", 'k\x00z', '\u200b', '\U0001f600', ' sp ']
+            "'", '"', '\\', "x'''y", '"""', '\r', 'é', '#c', 'x;y', '$v', "')", 'k\x00z', '\u200b', '\U0001f600', ' sp ',
+            # runs of blanks and other white space: text that any re-formatting of the generated source would alter
+            'two  blanks', '   ', 'a   b  c', '  lead', 'trail  ', 'x \t  y', ' \n  ', 'if  x :', 'or  else']
 
 
 def norm(s):
@@ -262,6 +267,89 @@ def pick_fields(rng, pool, n, nt=False):
     return out
 
 
+def adv_text(rng, n):
+    """adversarial text number `n` (the number keeps the texts of one model distinct)"""
+    c = rng.choice(ADV_TEXT) + (rng.choice(ADV_TEXT) if rng.random() < 0.5 else '')
+    if rng.random() < 0.2:
+        c += ' ' * rng.randint(2, 4) + rng.choice(['', 'w', '.'])
+    return c + str(n)
+
+
+def feat_names(spec, rng, fld_pool, cls_pool):
+    """adversarial naming of a feature model (harness/feat15.py): type / class __name__s from the class pool (one shared name
+    with high probability, high-value candidates often), field names from the field pool, text from ADV_TEXT"""
+    same = rng.choice(HV['classes']) if HV['classes'] and rng.random() < 0.3 else rng.choice(cls_pool)
+
+    def pn():
+        x = rng.random()
+        if x < 0.45:
+            return same
+        if x < 0.7 and HV['classes']:
+            return rng.choice(HV['classes'])
+        return rng.choice(cls_pool)
+    nm = len(spec['members'])
+    nf = len(spec['fields'])
+    fl = pick_fields(rng, fld_pool, nf + 2 * nm + 1)
+    texts = []
+    for i in range(spec['ntexts']):
+        for _ in range(50):
+            c = adv_text(rng, i)
+            if c not in texts:
+                break
+        texts.append(c)
+    return {'root': pn(), 'types': [pn() for _ in spec['types']], 'fields': fl[:nf], 'members': [pn() for _ in range(nm)],
+            'mfields': fl[nf:nf + nm], 'mrest': fl[nf + nm:nf + 2 * nm], 'rest': fl[-1], 'tds': [pn() for _ in range(nf)], 'text': texts}
+
+
+def feat_case(ctx, rng, i, engine, fld_pool, cls_pool):
+    """one feature model under its benign and its adversarial naming; -> the case (for the scope check of the caller) or None"""
+    rng = random.Random(f'C15:{ctx.seed}:{i}:feat:{rng.random()}')     # the case's own generator, seeded from the stream
+    spec = feat15.gen_spec(rng, engine)
+    names = feat_names(spec, rng, fld_pool, cls_pool)
+    drop = rng.random()
+    if not ctx.begin_case(i):
+        return None
+    case = {'feat': spec, 'names': names}
+    ctx.seen('feat:' + engine, case)
+    base = feat15.benign_names(spec)
+    try:
+        a = feat15.Side(spec, base)
+    except Exception as e:      # noqa
+        ctx.count('feat_build_error_base')
+        ctx.notes.setdefault('feat_build_errors_base', []).append(repr(e)[:200])
+        return case
+    try:
+        try:
+            b = feat15.Side(spec, names)
+        except Exception as e:      # noqa
+            ctx.fail('feat:build', case, f'the model builds under benign names but not under {names}: {e!r}'[:600])
+            return case
+        try:
+            det = {'src': b.source[-5000:]}
+            da, db = feat15.document(spec, base), feat15.document(spec, names)
+            docs = [('doc', da, db)]
+            if len(da) == len(db) and da:
+                k = int(drop * len(da))
+                docs.append(('drop', {x: v for j, (x, v) in enumerate(da.items()) if j != k},
+                             {x: v for j, (x, v) in enumerate(db.items()) if j != k}))
+            for kind, d1, d2 in docs:
+                oa, ob = feat15.observe(a, d1), feat15.observe(b, d2)
+                ctx.count('feat_load_ok' if oa[0][0] == 'ok' else 'feat_load_err')
+                if C.canon(oa[0]) != C.canon(ob[0]):
+                    ctx.fail('feat:load', dict(case, doc=d2), f'load of the renamed document by the renamed model: {json.dumps(ob[0])[:400]}; '
+                             f'benign spelling: {json.dumps(oa[0])[:400]}', detail=det)
+                    break
+                if C.canon(oa[1]) != C.canon(ob[1]):
+                    ctx.fail('feat:dump', dict(case, doc=d2), f'dump of the loaded instance, renamed model: {json.dumps(ob[1])[:400]}; '
+                             f'benign spelling: {json.dumps(oa[1])[:400]}', detail=det)
+                    break
+        finally:
+            b.close()
+    finally:
+        a.close()
+    return case
+
+
 def rename(root, rng, fld_pool, cls_pool):
     """-> (renamed model, maps).  Binding names (module level) are kept; `pyname` carries the adversarial __name__."""
     r = copy.deepcopy(root)
@@ -273,7 +361,7 @@ def rename(root, rng, fld_pool, cls_pool):
     def text(s):
         if s not in maps['text']:
             for _ in range(50):
-                c = rng.choice(ADV_TEXT) + (rng.choice(ADV_TEXT) if rng.random() < 0.5 else '') + str(len(maps['text']))
+                c = adv_text(rng, len(maps['text']))
                 if c not in maps['text'].values():
                     break
             maps['text'][s] = c
@@ -539,7 +627,13 @@ def run(ctx: C.Ctx):
                 'alias / tag text with quotes, backslashes, braces, newlines, NUL, non-BMP): dump(r(x)) ≙ dump(x), load_rM(r(j)) ≙ load_M(j) '
                 'for conforming, key-dropped and junk documents (errors by type), every generated function compiles and is well scoped; '
                 'EnvWizard classes with adversarial field names; Lean pyRepr/pyUnquote vs repr()/literal_eval, fieldVar/typeLocal vs the '
-                'captured names. Non-trivial = distinct (model, renaming).')
+                'captured names. Non-trivial = distinct (model, renaming). Two cases in five are feature models (harness/feat15.py) '
+                'outside the type grammar: user-defined Enum / str / int / float / Decimal / date / datetime / time subclasses as members of '
+                'real Unions, bare, in containers and under Pattern annotations (several types of one base and one __name__ sharing the '
+                'pattern strings), several load aliases per field (both engines), functional TypedDicts with text keys (required / '
+                'NotRequired / total=False), tagged roots and tagged Union members with text tag keys × CatchAll × unknown-key policies, '
+                'string operands of skip conditions and string defaults; rendered under benign and adversarial names (text incl. runs of '
+                'blanks), loaded from the correspondingly keyed documents and dumped back; results compared positionally.')
     ctx.assumptions += ['strings with lone surrogates are outside the Lean Char type and not generated',
                         'field names that are attributes of JSONWizard itself (to_dict, from_json, ...) or start with "__" are excluded: '
                         'they conflict with the class API / Python name mangling, not with the generators']
@@ -555,15 +649,39 @@ def run(ctx: C.Ctx):
                 if r != 'ok':
                     ctx.current = -1
                     ctx.fail('scope:battery', {'fn': n}, f'generated function {n}: {r}')
-        n_cases = ctx.quick(900, 9000)
+        n_cases = ctx.quick(1500, 15000)      # two in five are feature models (harness/feat15.py)
         cap = gencap.Capture()
         repr_strs = list(ADV_TEXT)
         field_names_seen, type_locals_seen = set(), set()
+        def check_generated(case, n_before, src):
+            """every function generated since batch `n_before` compiles and is well scoped"""
+            for bt in cap.batches[n_before:]:
+                fnames = set(bt['functions'])
+                for name, f in bt['functions'].items():
+                    probs, bound, ref = gencap.scope_report(name, f, bt['globals'], fnames)
+                    ctx.count('generated_functions')
+                    if bt['error']:
+                        probs = probs + [f'batch failed: {bt["error"][:200]}']
+                    if probs:
+                        ctx.fail('scope', case, f'generated function {name}: {"; ".join(sorted(set(probs)))[:400]}',
+                                 detail={'fn_src': gencap.fn_source(name, f)[:4000], 'src': src})
+                    if name.startswith('__dataclass_wizard_from_dict_'):
+                        for bn in bound:
+                            if bn.startswith('__') and bn.endswith('__v'):
+                                field_names_seen.add(bn)
+
         with cap.on():
             for i in range(n_cases):
                 if ctx.done(i):
                     break
                 engine = 'v1' if i % 2 else 'default'
+                if i % 5 in (1, 3):
+                    n_before = len(cap.batches)
+                    case = feat_case(ctx, rng, i, engine, fld_pool, cls_pool)
+                    if case is not None:
+                        check_generated(case, n_before, '')
+                    del cap.batches[n_before:]
+                    continue
                 if i % 9 == 8:
                     ec = env_case(rng, fld_pool, init_names)
                     kw = rng.choice([None] + list(range(len(ec['tys']))))
@@ -625,7 +743,9 @@ def run(ctx: C.Ctx):
                         except Exception:
                             ctx.count('doc_not_json')
                             continue
-                        docs = [('roundtrip', ja, jb)] + mutate_docs(rng, ja, jb)
+                        # (own generator: nothing after begin_case may draw from the shared stream, or a replay of a later
+                        # case index would regenerate different cases)
+                        docs = [('roundtrip', ja, jb)] + mutate_docs(random.Random(f'C15:{ctx.seed}:{i}:mutate'), ja, jb)
                         for kind, d1, d2 in docs:
                             oa = outcome(lambda: fromdict(a.built.root, copy.deepcopy(d1)), a)
                             ob = outcome(lambda: fromdict(b.built.root, copy.deepcopy(d2)), b)
@@ -639,20 +759,7 @@ def run(ctx: C.Ctx):
                 finally:
                     a.close()
                 # ---- generated code of this case
-                for bt in cap.batches[n_before:]:
-                    fnames = set(bt['functions'])
-                    for name, f in bt['functions'].items():
-                        probs, bound, ref = gencap.scope_report(name, f, bt['globals'], fnames)
-                        ctx.count('generated_functions')
-                        if bt['error']:
-                            probs = probs + [f'batch failed: {bt["error"][:200]}']
-                        if probs:
-                            ctx.fail('scope', case, f'generated function {name}: {"; ".join(sorted(set(probs)))[:400]}',
-                                     detail={'fn_src': gencap.fn_source(name, f)[:4000], 'src': b.built.source[-4000:]})
-                        if name.startswith('__dataclass_wizard_from_dict_'):
-                            for bn in bound:
-                                if bn.startswith('__') and bn.endswith('__v'):
-                                    field_names_seen.add(bn)
+                check_generated(case, n_before, b.built.source[-4000:])
                 for t in maps['text'].values():
                     repr_strs.append(t)
                 del cap.batches[n_before:]
